@@ -29,11 +29,13 @@ pub struct WatchOpts {
     pub service_bias: bool,
     /// only the io generator (X.output chains, several projects)
     pub io_only: bool,
+    /// chance that the kernel refuses one of the file watches (inotify limit)
+    pub watch_fail_pct: usize,
 }
 
 impl Default for WatchOpts {
     fn default() -> Self {
-        WatchOpts { max_bursts: 5, inside_build_pct: 45, prime_pct: 60, fail_pct: 0, service_bias: false, io_only: false }
+        WatchOpts { max_bursts: 5, inside_build_pct: 45, prime_pct: 60, fail_pct: 0, service_bias: false, io_only: false, watch_fail_pct: 0 }
     }
 }
 
@@ -76,14 +78,16 @@ fn gen_watch_op(rng: &mut Rng, sc: &Scenario, targets: &[Tid], n: u64) -> Option
     let (path, in_dir, _ext) = rng.pick(&files).clone();
     let dir = path.rsplit_once('/').map(|x| x.0.to_string()).unwrap_or_default();
     Some(if !in_dir {
-        match rng.weighted(&[60, 15, 15, 10]) {
+        match rng.weighted(&[55, 15, 12, 9, 9]) {
+            4 => FsOp::WriteOlder { path, content: format!("older revision #{}\n", n) },
             3 => FsOp::WriteMmap { path, content: format!("mmap#{}", n) },
             0 => FsOp::Write { path, content: format!("watch edit #{}\n", n) },
             1 => FsOp::Append { path, content: format!("+{}", n) },
             _ => FsOp::Touch { path },
         }
     } else {
-        match rng.weighted(&[40, 10, 10, 15, 10, 10, 8]) {
+        match rng.weighted(&[36, 10, 10, 15, 10, 10, 8, 8]) {
+            7 => FsOp::WriteOlder { path, content: format!("older revision #{}\n", n) },
             6 => FsOp::WriteMmap { path, content: format!("mmap#{}", n) },
             0 => FsOp::Write { path, content: format!("watch edit #{}\n", n) },
             1 => FsOp::Append { path, content: format!("+{}", n) },
@@ -169,7 +173,10 @@ pub fn gen_watch(rng: &mut Rng, o: &WatchOpts) -> Scenario {
         if ops.is_empty() {
             continue;
         }
-        let gate = if rng.chance(o.inside_build_pct) && !builds_in_clo.is_empty() {
+        let gate = if rng.chance(8) {
+            // right from the start: may land while targets are still being launched
+            Gate::Now
+        } else if rng.chance(o.inside_build_pct) && !builds_in_clo.is_empty() {
             let t = rng.pick(&builds_in_clo);
             Gate::Running { id: sc.sim_id(t.0, &t.1), nth: if rng.chance(50) { 0 } else { rng.range(1, 2) as u32 } }
         } else if b > 0 && rng.chance(25) {
@@ -197,6 +204,9 @@ pub fn gen_watch(rng: &mut Rng, o: &WatchOpts) -> Scenario {
             };
             inv.plan.faults.push(f);
         }
+    }
+    if rng.chance(o.watch_fail_pct) {
+        inv.plan.faults.push(Fault { site: "notify.watch".into(), occurrence: rng.range(1, 6) as u32, kind: "enospc".into() });
     }
     inv.plan.events.push(gen::signal_at_idle());
     inv.plan.knobs.step_budget = 400_000;
@@ -547,6 +557,11 @@ pub fn oracle_c01b(sc: &Scenario, r: &RunResult) -> Option<Violation> {
     struct St {
         // (dependency display, kind) → parked since the invalidation?
         invalid: BTreeMap<(String, String), bool>,
+        // the actor told its requesters Ok for its own kind and has not taken it back since
+        announced_ok: bool,
+        // it learnt (seq, from what) that it is out of date while announced_ok: it owes its
+        // requesters an Invalidated before it goes back to waiting
+        owes_invalidated: Option<(u64, String)>,
     }
     let mut st: BTreeMap<String, St> = BTreeMap::new();
     let parse = |rest: &str| -> Option<(String, String, String)> {
@@ -574,14 +589,49 @@ pub fn oracle_c01b(sc: &Scenario, r: &RunResult) -> Option<Violation> {
             None => continue,
         };
         let s = st.entry(e.task.clone()).or_default();
+        let own_kind_s = match model::kind_of(sc, &t) {
+            Some(Kind::Build) => "Build",
+            Some(Kind::Service) => "Service",
+            _ => "",
+        };
         match e.kind.as_str() {
             "recv" => {
                 if let Some((what, kind, dep)) = parse(&e.rest) {
                     if what == "inv" {
+                        // a build reacts to Build-kind notices only, a service to both
+                        if s.announced_ok && (own_kind_s == "Service" || (own_kind_s == "Build" && kind == "Build")) {
+                            s.owes_invalidated = Some((e.seq, format!("Invalidated{{{}}} from {}", kind, dep)));
+                        }
                         s.invalid.insert((dep, kind), false);
                     } else {
                         s.invalid.remove(&(dep, kind));
                     }
+                } else if e.rest.contains("TargetInvalidatedMessage") && s.announced_ok && !own_kind_s.is_empty() {
+                    s.owes_invalidated = Some((e.seq, "a change notification for its own inputs".to_string()));
+                }
+            }
+            "send" if e.rest.contains("msg:Invalidated{") => {
+                let names_self = e.rest.split("msg:Invalidated{").nth(1).map(|b| b.split("target_name:\"").nth(1).and_then(|x| x.split('"').next()).unwrap_or("") == t.1).unwrap_or(false);
+                let kind = e.rest.split("msg:Invalidated{kind:").nth(1).and_then(|x| x.split(',').next()).unwrap_or("");
+                if names_self && kind == own_kind_s {
+                    s.announced_ok = false;
+                    s.owes_invalidated = None;
+                }
+            }
+            "park" | "task-done" => {
+                if let Some((seq, why)) = &s.owes_invalidated {
+                    return viol(
+                        "out-of-date-not-announced",
+                        format!("target={} kind={}", sc.display(t.0, &t.1), own_kind_s),
+                        format!(
+                            "{} had told its requesters Ok{{{}}}, then received {} (seq {}), and went back to waiting without telling them Invalidated{{{}}}: its dependents keep treating it as ready",
+                            sc.display(t.0, &t.1),
+                            own_kind_s,
+                            why,
+                            seq,
+                            own_kind_s
+                        ),
+                    );
                 }
             }
             "send" if e.rest.contains("msg:Ok{") => {
@@ -596,6 +646,7 @@ pub fn oracle_c01b(sc: &Scenario, r: &RunResult) -> Option<Violation> {
                 let real_ack = e.rest.contains("actual:true")
                     && ((own_kind == Some(Kind::Build) && kind_s == "Build") || (own_kind == Some(Kind::Service) && kind_s == "Service"));
                 if names_self && real_ack {
+                    s.announced_ok = true;
                     // a build / service announcing its own readiness: none of its dependencies may
                     // have "out of date" as its latest word (the announcement would be stale)
                     // (a build does not treat a restarting *service* dependency as making its
